@@ -261,6 +261,9 @@ pub fn build_variant_groups<IntT: for<'a> UInt<'a>>(
         }
     }
 
+    #[cfg(feature = "verif-hooks")]
+    crate::skalo::verif_hooks::record_groups(&final_groups, &final_indels, data_info.k_graph);
+
     // infer variants
     analyse_variant_groups(
         final_groups,
